@@ -144,6 +144,19 @@ func runC37(c *Ctx) {
 			Step{Name: "maybeTransitionSnapshotsToFileOnlyLocked", M: CallTo("p.(*DB).maybeTransitionSnapshotsToFileOnlyLocked")},
 		)
 	}
+	// O3: a successful flush always attempts the transition (even when it produced no table)
+	if fn := c.Fn("C37.O3", "p.(*DB).flush1"); fn != nil {
+		isUVLErr := CallPred("UpdateVersionLocked", "")
+		fl := NewFlow(c.P).
+			KillAfter("efos-transition-attempted|flush-failed", CallTo("p.(*versionSet).UpdateVersionLocked")).
+			Edge("efos-transition-attempted|flush-failed", NotCond(NilErrGuard(isUVLErr))).
+			After("efos-transition-attempted|flush-failed", CallTo("p.(*DB).maybeTransitionSnapshotsToFileOnlyLocked"))
+		fl.MaxDepth = 0
+		entry := emptyState()
+		entry.add("efos-transition-attempted|flush-failed")
+		res := fl.Analyze(fn, entry)
+		c.Require("C37.O3", res, AnyReturn, "every successful flush attempts the file-only transition of pending snapshots", []string{"efos-transition-attempted|flush-failed"})
+	}
 	c.Who("C37.W1", FuncRef("p.(*EventuallyFileOnlySnapshot).transitionToFileOnlySnapshot"), "transition only from the flush path", "p.(*DB).maybeTransitionSnapshotsToFileOnlyLocked")
 	// callers reference the version before handing it over
 	if fn := c.Fn("C37.P1", "p.(*DB).maybeTransitionSnapshotsToFileOnlyLocked"); fn != nil {
